@@ -239,6 +239,52 @@ pub fn run(ctx: &mut Ctx) -> (String, Value, Vec<String>) {
     for (k, what, c) in bad {
         ctx.violation(&k, &what, "fp-case", serde_json::to_value(&c).unwrap());
     }
+    // ---- searches that are not tiny: (i) slow convergence — w(r) = min(r + 1, N) creeps up
+    // one tick per iteration for N iterations; (ii) large values — sporadic-like step workloads
+    // with parameters around 10^6..10^7 (the reference is the exact Kleene iteration from below)
+    let mut big = 0u64;
+    for nn in if ctx.quick() { vec![12_000u64, 70_000] } else { vec![9_999u64, 10_000, 10_001, 12_000, 70_000, 300_000] } {
+        for sup in [SupplySpec::Dedicated, SupplySpec::Periodic { q: 1, p: 2 }, SupplySpec::Opaque(Box::new(SupplySpec::Periodic { q: 1, p: 2 }))] {
+            // w(r) <= r + 1 > sbf(r) until the cap N is reached: the least solution is the first
+            // instant at which N units of service are guaranteed (from the reservation automaton)
+            let want = RefSupply::new(&sup, (2 * nn + 10) as usize).service_time(nn);
+            big += 1;
+            let sb = sup.build();
+            let r = catch(|| fixed_point::search(&sb, d(10 * nn), |r| s((du(r) + 1).min(nn))));
+            let r2 = catch(|| fixed_point::search_with_offset(&sb, Offset::from(0), d(10 * nn), &|r| s((du(r) + 1).min(nn))));
+            for (name, r) in [("search", r), ("search_with_offset", r2)] {
+                match r {
+                    Ok(Ok(v)) if du(v) == want => {}
+                    other => ctx.violation(&format!("fixed_point::{name}#not-least-solution+slow-convergence"), &format!("{name} on {:?} with w(r) = min(r + 1, {nn}), limit {}: returned {:?}, the least solution is {want}", sup, 10 * nn, other), "fp-slow", json!({"supply": sup, "n": nn})),
+                }
+            }
+        }
+    }
+    for (c0, t1, c1, t2, j2, c2) in [(4_000_000u64, 10_000_000u64, 3_000_000u64, 7_000_000u64, 1_000u64, 2_000_000u64), (1_000_000, 3_000_000, 1_000_001, 5_000_000, 4_999_000, 1_500_000), (400_001, 1_000_000, 300_000, 700_000, 1_000, 200_000), (96, 95, 47, 97, 0, 49)] {
+        let w = move |r: u64| c0 + r.div_ceil(t1) * c1 + (r + j2).div_ceil(t2) * c2;
+        // Kleene iteration from below (exact)
+        let mut x = 1u64;
+        let want = loop {
+            let y = w(x);
+            if y <= x {
+                break y.max(w(y.max(1)));
+            }
+            x = y;
+            if x > 1u64 << 50 {
+                break u64::MAX;
+            }
+        };
+        if want == u64::MAX {
+            continue;
+        }
+        big += 1;
+        let sb = SupplySpec::Dedicated.build();
+        let r = catch(|| fixed_point::search_with_offset(&sb, Offset::from(0), d(1u64 << 52), &move |r| s(w(du(r)))));
+        match r {
+            Ok(Ok(v)) if du(v) == want => {}
+            other => ctx.violation("fixed_point::search_with_offset#not-least-solution+large-values", &format!("workload {c0} + ceil(r/{t1})*{c1} + ceil((r+{j2})/{t2})*{c2} on a dedicated processor: returned {:?}, the least fixed point (exact Kleene iteration) is {want}", other), "fp-large", json!({"w": [c0, t1, c1, t2, j2, c2]})),
+        }
+    }
     // ---- max_response_time: every sequence of length <= 4 over {Ok(0..3), Err(a), Err(b)}
     let ea = SearchFailure::DivergenceLimitExceeded { offset: Offset::from(3), limit: d(10) };
     let eb = SearchFailure::DivergenceLimitExceeded { offset: Offset::from(5), limit: d(10) };
@@ -265,13 +311,13 @@ pub fn run(ctx: &mut Ctx) -> (String, Value, Vec<String>) {
             }
         }
     }
-    let ev = evals.load(Ordering::Relaxed) + mrt;
+    let ev = evals.load(Ordering::Relaxed) + mrt + big;
     let mut smp = samples.into_inner().unwrap();
     smp.push(json!({"max_response_time_sequences": mrt}));
     let cov = json!({
         "evaluations": ev,
         "distinct_nontrivial": nontrivial.load(Ordering::Relaxed),
-        "rule": format!("all {} non-decreasing workload tables {{1..{n}}}->{{0..{m}}} (constant beyond) x {} supplies (dedicated, periodic, constrained with P<={pmax}, each also behind an opaque wrapper that exercises the default service_time) x every offset with A=0 or sbf(A-1)<w(1) x every limit 0..=fixed point+2 and six limits near u64::MAX; non-trivial = the least solution exceeds w(1) (more than one iteration)", tables.len(), sups.len()),
+        "rule": format!("all {} non-decreasing workload tables {{1..{n}}}->{{0..{m}}} (constant beyond) x {} supplies (dedicated, periodic, constrained with P<={pmax}, each also behind an opaque wrapper that exercises the default service_time) x every offset with A=0 or sbf(A-1)<w(1) x every limit 0..=fixed point+2 and six limits near u64::MAX; plus slow-convergence workloads (10^4..3*10^5 iterations) and step workloads with values around 10^6..10^7; non-trivial = the least solution exceeds w(1) (more than one iteration)", tables.len(), sups.len()),
         "workload_tables": tables.len(),
         "supplies": sups.len(),
         "max_response_time_sequences": mrt,
@@ -286,6 +332,30 @@ pub fn run(ctx: &mut Ctx) -> (String, Value, Vec<String>) {
 }
 
 pub fn replay(case: &Value) -> bool {
+    if let Some(nn) = case.get("n").and_then(|x| x.as_u64()) {
+        let sup: SupplySpec = serde_json::from_value(case["supply"].clone()).unwrap();
+        let want = RefSupply::new(&sup, (2 * nn + 10) as usize).service_time(nn);
+        let sb = sup.build();
+        let r = catch(|| fixed_point::search(&sb, d(10 * nn), |r| s((du(r) + 1).min(nn))));
+        println!("replay: library {:?}, least solution {want}", r);
+        return !matches!(r, Ok(Ok(v)) if du(v) == want);
+    }
+    if let Some(wv) = case.get("w") {
+        let p: Vec<u64> = serde_json::from_value(wv.clone()).unwrap();
+        let w = move |r: u64| p[0] + r.div_ceil(p[1]) * p[2] + (r + p[4]).div_ceil(p[3]) * p[5];
+        let mut x = 1u64;
+        let want = loop {
+            let y = w(x);
+            if y <= x {
+                break y;
+            }
+            x = y;
+        };
+        let sb = SupplySpec::Dedicated.build();
+        let r = catch(|| fixed_point::search_with_offset(&sb, Offset::from(0), d(1u64 << 52), &move |r| s(w(du(r)))));
+        println!("replay: library {:?}, least fixed point {want}", r);
+        return !matches!(r, Ok(Ok(v)) if du(v) == want);
+    }
     let c: FpCase = serde_json::from_value(case.clone()).expect("bad case");
     let rs = RefSupply::new(&c.supply, 400);
     let want = oracle(&rs, &c);
